@@ -198,7 +198,7 @@ class C10(Prop):
             "zeros, case, clause order/duplication, name normalisation, white space, quotes, parentheses), c a near miss; "
             "checked: reflexive/symmetric/transitive ==, != is its negation, equal ⇒ equal hash ⇒ collapse in set/dict, "
             "equal ⇒ same behaviour under probes; non-trivial = a == b")
-    budget = {"quick": (0, 6000), "thorough": (0, 150000)}
+    budget = {"quick": (0, 3500), "thorough": (0, 150000)}
 
     def gen_laws(self, rng, n):
         for i in range(n):
